@@ -55,16 +55,31 @@ class SimContext:
             w.ctx.probe("coap_reply_lost")
             return _Req(fut)  # silence: the caller's own timeout decides
         delay = outcome.get("delay", w.latency())
+        box = {}
+
+        def arrive():  # the request reaches the accessory (half way); a caller that gave up before this never reached it
+            if fut.done() and not outcome.get("arrive_anyway"):
+                w.ctx.probe("coap_request_never_arrived")
+                return
+            if outcome["kind"] == "neterr":
+                return
+            box["reply"] = w.serve(path, bytes(msg.payload), outcome)
 
         def deliver():
             if fut.done():
+                if "reply" in box:
+                    w.ctx.probe("coap_reply_to_abandoned_request")
                 return
             if outcome["kind"] == "neterr":
                 fut.set_exception(NetworkError("simulated network error"))
                 return
-            code, payload = w.serve(path, bytes(msg.payload), outcome)
+            if outcome["kind"] == "reply_lost" and path == "":
+                w.ctx.probe("coap_reply_lost_after_processing")
+                return
+            code, payload = box["reply"]
             fut.set_result(Message(code=code, payload=payload))
 
+        loop.call_later(delay / 2, arrive)
         loop.call_later(delay, deliver)
         return _Req(fut)
 
